@@ -14,10 +14,21 @@ def gen(tier, rng, shard, nshards):
     for i in range(SIZES[tier]):
         n = int(S.pick(rng, [1, 2, 3, 4, 6, 8, 12, 20, 30, 40] + ([80, 150] if tier == "thorough" else [])))
         dt = S.pick(rng, ["f8", "f8", "c16"])
-        yield {"n": n, "dt": dt, "normal": bool(rng.random() < 0.4), "seed": S.seed(rng), "cols": int(S.pick(rng, [0, 1, 3])),
-               "rhs": S.pick(rng, ["generic", "generic", "eigvec", "few-eigvecs"]), "x0": S.pick(rng, ["none", "none", "zero", "random"]),
-               "tol": float(S.pick(rng, [1e-12, 1e-12, 1e-8, 1e-6])), "via": S.pick(rng, ["gmres", "gmres", "inv"]),
-               "ms": S.pick(rng, ["sweep", "sweep", "beyond"])}
+        case = {"n": n, "dt": dt, "normal": bool(rng.random() < 0.4), "seed": S.seed(rng), "cols": int(S.pick(rng, [0, 1, 3])),
+                "rhs": S.pick(rng, ["generic", "generic", "eigvec", "few-eigvecs"]), "x0": S.pick(rng, ["none", "none", "zero", "random"]),
+                "tol": float(S.pick(rng, [1e-12, 1e-12, 1e-8, 1e-6])), "via": S.pick(rng, ["gmres", "gmres", "inv"]),
+                "ms": S.pick(rng, ["sweep", "sweep", "beyond"])}
+        if rng.random() < 0.15:
+            # right-hand-side columns living in two invariant subspaces on which the operator acts at very different scales
+            # (every column sees one scale only, but the columns of one call see different ones)
+            # Kept small and normal: rounding couples the two subspaces at eps*scale and every further product amplifies the
+            # coupling by the scale ratio, so only a few steps at scale 1e2 are numerically the exact-arithmetic iteration.
+            case.update(rhs="scale-separated", cols=3, x0=S.pick(rng, ["none", "zero"]), scale=float(S.pick(rng, [100.0, 300.0])),
+                        tol=1e-3, n=int(S.pick(rng, [2, 3, 4, 5, 6, 8])), normal=True)
+        yield case
+
+
+LAST = {}  # side information of the last build() (effective condition number of the scale-separated family)
 
 
 def build(case):
@@ -39,6 +50,15 @@ def build(case):
             else:
                 lam[i] = m
                 i += 1
+    sep = case["rhs"] == "scale-separated" and n >= 2
+    if sep:
+        h = n // 2
+        if not cplx and abs(lam[h - 1].imag) > 0 and lam[h - 1].imag > 0:  # do not split a conjugate pair
+            h = h + 1 if h + 1 < n else h - 1
+        h = max(1, min(n - 1, h))
+        if not cplx and abs(lam[h - 1].imag) > 0 and lam[h - 1].imag > 0:
+            lam = np.sort(np.abs(lam)).astype(complex)  # (tiny n: fall back to a real positive spectrum)
+        lam[:h] = lam[:h] * case["scale"]
     U = P.haar(rng, n, cplx)
     if case["normal"] and cplx:
         V = U
@@ -67,7 +87,18 @@ def build(case):
     M = M.astype(P.DT[dt])
     cols = max(case["cols"], 1)
     degree = None
-    if case["rhs"] == "generic" or n == 1:
+    LAST.clear()
+    if sep:
+        groups = [np.arange(0, h), np.arange(h, n)]
+        b = np.zeros((n, cols), dtype=complex)
+        for c in range(cols):
+            g = groups[c % 2]
+            b[:, c] = V[:, g] @ (rng.standard_normal(len(g)) + (1j * rng.standard_normal(len(g)) if cplx else 0))
+        if not cplx:
+            b = b.real
+        degree = max(h, n - h)
+        LAST["sep"] = True
+    elif case["rhs"] == "generic" or n == 1:
         b = rng.standard_normal((n, cols)) + (1j * rng.standard_normal((n, cols)) if cplx else 0)
     else:
         d = 1 if case["rhs"] == "eigvec" else int(rng.integers(2, max(3, min(4, n)) + 1))
@@ -152,7 +183,8 @@ def run_case(ctx, case):
     wide = complex if cplx else float
     Mw = M.astype(wide)
     kappa = float(np.linalg.cond(Mw))
-    if kappa > 1e2:
+    # (the scale-separated family needs a scale ratio >= 1e2 by construction: its regime is kappa <= 1e3 with n <= 8)
+    if kappa > (1e3 if LAST.get("sep") else 1e2):
         ctx.note("skipped_out_of_regime_cond")
         return
     ctx.begin_case(case, sig="|".join(f"{k}={case[k]}" for k in ("n", "dt", "normal", "cols", "rhs", "x0", "tol", "via", "ms")), nontrivial=True)
